@@ -450,6 +450,16 @@ def check_decision(rep, ctx):
                               key="C02.decision.every-privilege-tested", reproduced=None))
             elif tested:
                 rep.add(Query("is_allowed path %d: every privilege yielded by the iteration is tested against the URL before the next one" % i, "holds", "", 0, "mirsym+z3", key="C02.decision.every-privilege-tested"))
+        # a refusal (deny, or falling back to the default) is a statement about ALL privileges: it may be returned only after the
+        # iteration over the privileges is exhausted (a grant by a privilege the loop never reached would be lost, and which one is
+        # reached first depends on hash order). An allow may be returned as soon as one grant is found.
+        if pnx and implied(r, mode != AM.index("Disabled")):
+            exhausted = implied(r, pnx[-1].ret.discr() == 0)
+            rs_allow, _m, _dt, _zm = check_sat(r.pc + [z3.Not(ret)])
+            if rs_allow == "sat":            # the path can answer "not allowed"
+                ok = exhausted or (isinstance(r.ret, Scalar) is False and exhausted)
+                rep.add(Query("is_allowed path %d: a refusal is returned only after every privilege was examined (iterator exhausted)" % i, "holds" if exhausted else "violated",
+                              "the path answers false after %d privilege(s) with the iteration still open" % len(pnx), 0, "mirsym+z3", key="C02.decision.refusal-after-all", reproduced=None))
         # every identity consulted is the one NAMED by an assignment of the matched privilege and DEFINED in identities
         for e in im:
             idv = origin(e.rargs[0])
@@ -707,6 +717,53 @@ def _element_of(evs, v, container):
     return False
 
 
+def check_query_pairs(rep, ctx, prefix="C02"):
+    """hyper_client::query_pairs (the rules and the canonical string both see the query through it): the query is cut at '&', each piece at
+    its FIRST '=' only - the key is what precedes it, the value everything after it (further '=' included), a piece with an empty key is dropped"""
+    try:
+        w = ctx.one("hyper_client::query_pairs")
+    except Inconclusive as ex:
+        rep.add(Query("query_pairs located", "inconclusive", str(ex), 0, "mirsym", key=prefix + ".query_pairs"))
+        return
+    from p_c08 import derives
+    eng = ctx.engine(loop_bound=1)
+    eng.auto_inline = ctx.new_function_auto()
+    n = 0
+    for i, r in enumerate(eng.explore(w)):
+        ev = r.events
+        pushes = [e for e in ev if e.kind == "call" and e.callee.endswith("Vec::push")]
+        outer = [e for e in ev if e.kind == "call" and re.search(r"str::split$", e.callee) and isinstance(e.rargs[1], ConstV) and "'&'" in (e.rargs[1].text or "")]
+        for pu in pushes:
+            n += 1
+            tup = pu.rargs[1]
+            if not (isinstance(tup, Agg) and len(tup.fields) == 2):
+                rep.add(Query("query_pairs path %d: pushes a (key, value) pair" % i, "inconclusive", repr(tup)[:80], 0, "mirsym", key=prefix + ".query_pairs"))
+                continue
+            sp = [e for e in ev[:ev.index(pu)] if e.kind == "call" and re.search(r"str::(splitn|split|rsplitn|rsplit|split_once|rsplit_once|split_terminator)$", e.callee) and e not in outer]
+            if not sp:
+                rep.add(Query("query_pairs path %d: key and value come from a split of the piece" % i, "inconclusive", "no splitter found", 0, "mirsym", key=prefix + ".query_pairs"))
+                continue
+            sp = sp[-1]
+            kind = sp.callee.split("::")[-1]
+            sep_ok = any(isinstance(a, ConstV) and "'='" in (a.text or "") or (isinstance(a, StrV) and a.e.as_string() == "=") for a in sp.rargs[1:])
+            piece_ok = bool(outer) and any(e.kind == "call" and e.callee.endswith("::next") and same_origin(e.rargs[0], outer[0].ret) and derives(sp.rargs[0], e.ret, ev) for e in ev)
+            if kind == "splitn":
+                nval = z3.simplify(sp.rargs[1].e).as_long() if isinstance(sp.rargs[1], Scalar) and z3.is_bv_value(z3.simplify(sp.rargs[1].e)) else None
+                nx = [e for e in ev if e.kind == "call" and e.callee.endswith("::next") and same_origin(e.rargs[0], sp.ret)]
+                ok = nval == 2 and sep_ok and len(nx) >= 2 and derives(tup.fields[0], nx[0].ret, ev) and derives(tup.fields[1], nx[1].ret, ev)
+                detail = "splitn(%s, '=')" % nval
+            elif kind == "split_once":
+                ok = sep_ok and derives(tup.fields[0], sp.ret, ev) and derives(tup.fields[1], sp.ret, ev)
+                detail = "split_once('=')"
+            else:
+                ok = False
+                detail = "%s: the value stops at a second '=' (or the wrong '=' is taken)" % kind
+            rep.add(Query("query_pairs path %d: a piece is cut at its first '=' only (key before, whole rest after), pieces come from the split at '&'" % i, "holds" if ok and piece_ok else "violated", detail, 0, "mirsym",
+                          key=prefix + ".query_pairs", reproduced=None))
+    rep.functions_encoded.append(w)
+    rep.add(Query("witness: query_pairs has a pair-producing path", "witness-hit" if n else "witness-missed", "%d" % n, 0, "mirsym"))
+
+
 def check(rep, tier, seed):
     ctx = Ctx("agent")
     rep.extra["mir_dump"] = {"cache_hit": ctx.dump.cache_hit, "tree_hash": ctx.dump.hash, "seconds": round(ctx.dump.seconds, 1)}
@@ -714,10 +771,13 @@ def check(rep, tier, seed):
     check_identity_match(rep, ctx)
     check_decision(rep, ctx)
     check_flatten(rep, ctx, tier)
+    check_query_pairs(rep, ctx)
+    import batteries
+    batteries.confirm(rep, "C02")
     rep.stubs += ["HashMap/HashSet/Vec iteration: Iterator::next is uninterpreted (any element sequence, any order) under a loop bound", "str::to_lowercase: str.to_lower of cvc5 in the case-fold query, uninterpreted elsewhere",
                   "Iterator::find: uninterpreted Option result; its closure is checked on its own body"]
     rep.assumptions += ["URLs without repeated query keys (Iterator::find takes the first pair of a key)"]
-    rep.outside_claim += ["hyper_client::query_pairs' splitting of the raw query string", "rule documents with more than 2 privileges / assignments per privilege", "non-ASCII paths in the case-fold query",
+    rep.outside_claim += ["rule documents with more than 2 privileges / assignments per privilege", "non-ASCII paths in the case-fold query",
                           "from_authorization_item with real hashbrown tables (checked structurally only)"]
     rep.trusted += ["mirsym", "z3", "cvc5 1.0 (str.to_lower)"]
 
